@@ -121,7 +121,7 @@ func runDpipe(s *script, r *res.Result) (string, string, int) {
 			r.Count("dpipe_closes", 1)
 		}
 	}
-	r.DistinctKey(fmt.Sprintf("dpipe n=%d closed=%v", len(s.Ops)/5, closed))
+	r.DistinctKey("dpipe " + shape(s))
 	return "", "", 0
 }
 
@@ -336,7 +336,7 @@ func runBridge(s *script, r *res.Result) (string, string, int) {
 		}
 		r.Count("bridge_delivered", int64(len(g)))
 	}
-	r.DistinctKey(fmt.Sprintf("bridge n=%d", len(s.Ops)/4))
+	r.DistinctKey("bridge " + shape(s))
 	return "", "", 0
 }
 
@@ -459,4 +459,16 @@ func main() {
 	}
 	_ = nshard
 	r.Write(*out)
+}
+
+// shape is the sequence of operation kinds and directions of a script (sizes and contents ignored).
+func shape(s *script) string {
+	b := make([]byte, 0, 2*len(s.Ops))
+	for _, o := range s.Ops {
+		b = append(b, o.K[0], byte('0'+o.D))
+		if o.K == "reordernext" || o.K == "dropnext" {
+			b = append(b, 'N', byte('0'+o.N))
+		}
+	}
+	return string(b)
 }
